@@ -31,6 +31,14 @@ def _worker(args):
         if kind == "contract":
             c = engine.CONTRACTS[idx]
             return ("contract", idx, engine.run_contract(c, tier=tier, findings=set(open_ids), want_sample=want_sample))
+        if kind == "protocol":
+            pr = engine.PROTOCOLS[idx]
+            t0 = time.time()
+            seed = int(os.environ.get("VERIF_SEED", "0") or 0)
+            r = pr.fn(tier, seed, set(open_ids))
+            r["id"] = pr.id
+            r["wall_s"] = time.time() - t0
+            return ("protocol", idx, r)
         b = engine.BOUNDED[idx]
         t0 = time.time()
         seed = int(os.environ.get("VERIF_SEED", "0") or 0)
@@ -84,7 +92,10 @@ def main(argv=None):
     if a.only:
         contracts = [(i, c) for i, c in contracts if a.only in c.id]
         bounded = [(i, b) for i, b in bounded if a.only in b.id]
-    jobs = [("contract", i, tier, open_ids, k < 3) for k, (i, c) in enumerate(contracts)] + [("bounded", i, tier, open_ids, False) for i, b in bounded]
+    protocols = [(i, p) for i, p in enumerate(engine.PROTOCOLS) if p.prop == prop and (tier == "thorough" or p.tier == "quick")]
+    if a.only:
+        protocols = [(i, p) for i, p in protocols if a.only in p.id]
+    jobs = [("contract", i, tier, open_ids, k < 3) for k, (i, c) in enumerate(contracts)] + [("bounded", i, tier, open_ids, False) for i, b in bounded] + [("protocol", i, tier, open_ids, False) for i, p in protocols]
     results = []
     if jobs:
         ctx = mp.get_context("fork")
@@ -151,6 +162,35 @@ def main(argv=None):
                 crashes.append({"error": "vacuous contract (no satisfiable path): %s" % r["id"]})
             undecided += r["undecided"]
             violations += [dict(v, contract=r["id"]) for v in r["violations"]]
+        elif kind == "protocol":
+            known_obl = set()
+            for f in findings:
+                if f.get("status") == "open":
+                    known_obl |= set(f.get("obligations", []))
+            pc = {"contract": r["id"], "kind": "protocol", "status": "ok", "paths": 0, "feasible_paths": 0, "pruned": 0, "functions": r.get("functions", []), "clauses": [], "wall_s": round(r.get("wall_s", 0), 2), "note": engine.PROTOCOLS[idx].note, "exceptions": []}
+            for o in r.get("obligations", []):
+                if o["id"] in known_obl and o["status"] == "violated":
+                    pc["clauses"].append({"clause": o["id"], "status": "known-finding", "backend": [o.get("backend", "")], "paths": 1, "discharged": 0, "solver_s": 0})
+                    continue
+                n_obl += 1
+                pc["clauses"].append({"clause": o["id"], "status": o["status"], "backend": [o.get("backend", "")], "paths": 1, "discharged": 1 if o["status"] == "discharged" else 0, "solver_s": 0})
+                backends[o.get("backend", "protocol")] = backends.get(o.get("backend", "protocol"), 0) + 1
+                if o["status"] == "discharged":
+                    n_dis += 1
+                    if len(samples) < 3 and o.get("detail"):
+                        samples.append({"obligation": o["id"], "result": "discharged", "backend": o.get("backend"), "detail": str(o.get("detail"))[:1500]})
+                elif o["status"] == "violated":
+                    pc["status"] = "violated"
+                    violations.append({"obligation": o["id"], "replayed": bool(o.get("replayed")), "witness": o.get("witness"), "solver_output": o.get("detail"), "contract": r["id"]})
+                else:
+                    pc["status"] = "undecided" if pc["status"] == "ok" else pc["status"]
+                    undecided.append({"obligation": o["id"], "reason": str(o.get("detail"))[:300]})
+            for f in r.get("functions", []):
+                functions.setdefault(f, {"sha256_module": None})
+            trusted |= set(r.get("trusted", []))
+            for e in r.get("errors", []):
+                crashes.append({"error": e})
+            per_contract.append(pc)
         else:
             bounded_out.append(r)
             for f in r.get("failures", []):
@@ -162,7 +202,7 @@ def main(argv=None):
         ent = {"id": f["id"], "status": f.get("status")}
         w = f.get("witness")
         if w:
-            p = subprocess.run([sys.executable, os.path.join(VERIF, w)], capture_output=True, text=True, cwd=VERIF, timeout=600)
+            p = subprocess.run([sys.executable, os.path.join(VERIF, w)] + list(f.get("witness_args", [])), capture_output=True, text=True, cwd=VERIF, timeout=600)
             ent["witness_exit"] = p.returncode
             ent["witness_out"] = (p.stdout + p.stderr).strip()[-400:]
             if f.get("status") == "open":
